@@ -104,23 +104,32 @@ package responsemanager
 //@   modifies rm.inProgressResponses[requestID].state, rm.inProgressResponses[requestID].updates, alloc, nPush
 //@   ensures invRS(rm) && othersSameRS(rm, requestID)
 
+//@ ghost lastHookMaxLinks int    -- MaxLinks of the most recent request-hook result
+//@ func RequestHooks.ProcessRequestHooks
+//@   assumed
+//@   recvnonnil
+//@   modifies lastHookMaxLinks, alloc
+//@   ghost lastHookMaxLinks := result.MaxLinks
 //@ func ResponseManager.newRequest
 //@   lenient
 //@   requires invRS(rm) && mine(rm, p, request.id)
-//@   modifies rm.inProgressResponses[*], prot, alloc, nPush, nScope
+//@   modifies rm.inProgressResponses[*], prot, alloc, nPush, nScope, lastHookMaxLinks
 //@   -- C23: a new response is Queued exactly when its task was pushed (otherwise it is Paused or CompletingSend)
 //@   ensures (rm.inProgressResponses[request.id].state == graphsync.Queued) <==> (nPush == old(nPush) + 1)
 //@   ensures rm.inProgressResponses[request.id].state == graphsync.Queued || rm.inProgressResponses[request.id].state == graphsync.Paused || rm.inProgressResponses[request.id].state == graphsync.CompletingSend
 //@   callsite TaskQueue.PushTask argis "peertask.Task{Topic: request.ID()": assert $p == p && $task.Work == 1
 //@   ensures invRS(rm) && othersSameRS(rm, request.id)
 //@   ensures request.id in rm.inProgressResponses && rm.inProgressResponses[request.id].peer == p
+//@   -- C07: the per-request link limit the hooks set is recorded with the response whatever state it starts in (a response
+//@   -- that starts paused is traversed later, under that limit)
+//@   ensures rm.inProgressResponses[request.id].maxLinks == lastHookMaxLinks
 
 //@ -- C10 (top level): whatever requests peer p sends, responses being served to other peers are untouched:
 //@ -- the cancel / update / new arms are reached only for a request ID that is free or belongs to p
 //@ func ResponseManager.processRequests
 //@   lenient
 //@   requires invRS(rm)
-//@   modifies rm.inProgressResponses[*], inProgressResponseStatus.state, inProgressResponseStatus.updates, prot, alloc, nPush, nRemove, nScope, errSigTok, errSigVal
+//@   modifies rm.inProgressResponses[*], inProgressResponseStatus.state, inProgressResponseStatus.updates, prot, alloc, nPush, nRemove, nScope, errSigTok, errSigVal, lastHookMaxLinks
 //@   ensures invRS(rm)
 //@   callsite ResponseManager.abortRequest: assert mine(rm, p, $requestID)
 //@   callsite ResponseManager.processUpdate: assert mine(rm, p, $requestID)
@@ -167,6 +176,9 @@ package responsemanager
 //@           && old(errSigTok[rm.inProgressResponses[task.Topic].signals.ErrSignal]) > 0
 //@           && old(errSigVal[rm.inProgressResponses[task.Topic].signals.ErrSignal]) == queryexecutor.ErrNetworkError
 //@           ==> !(task.Topic in rm.inProgressResponses)
+//@   -- C05: a task that ends with a pause leaves whatever waits on the error signal where it is: the resumed run (or a
+//@   -- cancel / network failure handled while paused) must still find it
+//@   ensures err != nil && dyntype(err) == typetag("hooks.ErrPaused") ==> errSigTok == old(errSigTok)
 
 //@ -- C05: outcome notifications come from message notifications: completed listeners exactly when a TERMINAL status was
 //@ -- sent, after the request has been retired; a failed send closes the request with a network error
